@@ -562,6 +562,9 @@ struct ImmBits {
 };
 
 ASMJIT_FAVOR_SIZE static Error FormatterInternal_format_imm_shuf(String& sb, uint32_t imm8, uint32_t bits, uint32_t count) noexcept {
+  // An 8-bit immediate cannot describe more than `8 / bits` elements.
+  count = Support::min<uint32_t>(count, 8u / bits);
+
   uint32_t mask = (1 << bits) - 1;
   uint32_t last_predicate_shift = bits * (count - 1u);
 
